@@ -204,6 +204,60 @@ fn exec_loop(t: &mut Tape, st: &mut Stats) -> Result<(), String> {
     Ok(())
 }
 
+/// Stage 'histories': progress must not depend on what happened before on the same body - earlier writes of other
+/// sizes, buffers that shrink, calculate_max_input() asked about another size. Every write is compared with the same
+/// write on a fresh sender.
+fn exec_history(t: &mut Tape, st: &mut Stats) -> Result<(), String> {
+    let api = if t.below(2) == 0 { Api::Flow } else { Api::Call };
+    let kind = match t.weighted(&[3, 1, 1]) {
+        0 => Kind::DefaultChunked,
+        1 => Kind::ExplicitTe,
+        _ => Kind::DefaultChunkedHttp10,
+    };
+    let mut s = Sender::new(api, kind)?;
+    let nsteps = t.range(2, 10);
+    let mut off = 0usize;
+    let mut desc = vec![];
+    for i in 0..nsteps {
+        let out = match t.weighted(&[3, 2, 2, 2]) {
+            0 => t.range(6, 12),
+            1 => *t.pick(&[21usize, 22, 261, 262, 4101, 4102, 4103, 4104, 10_253, 10_254]),
+            2 => t.range(13, 600),
+            _ => t.range(600, 12_000),
+        };
+        let input_len = match t.weighted(&[3, 2, 2, 1]) {
+            0 => t.range(1, 40),
+            1 => out.saturating_sub(t.below(12)).max(1),
+            2 => *t.pick(&[16usize, 256, 4096, 8192, 10_240]) + t.below(3),
+            _ => t.range(1, 20_000),
+        };
+        // sometimes the caller asks about a buffer size first - the same one, or another one
+        let asked = if t.chance(35) {
+            let k = if t.bool() { out } else { *t.pick(&[64usize, 512, 1024, 4096, 16_384]) };
+            let _ = s.max_input(k);
+            Some(k)
+        } else {
+            None
+        };
+        let input = &pattern()[200 + off..200 + off + input_len];
+        let fresh = one_write(api, kind, input_len, out)?;
+        let (c, p) = with_out(out, |o| s.write(input, o)).map_err(|e| format!("step {}: write(in = {}, out = {}) failed: {:?}", i, input_len, out, e))?;
+        st.evals(2);
+        desc.push(json!({"asked_max_input_for": asked, "in": input_len, "out": out, "consumed": c}));
+        if c == 0 {
+            return Err(format!("step {} of a history: write of {} bytes into a {}-byte buffer consumed 0 (produced {}); history so far {:?}", i, input_len, out, p, desc));
+        }
+        if c != fresh {
+            return Err(format!("step {} of a history: write of {} bytes into a {}-byte buffer consumed {} but {} on a fresh body; history so far {:?}", i, input_len, out, c, fresh, desc));
+        }
+        off += c;
+    }
+    st.describe(|| json!({"api": format!("{:?}", api), "kind": format!("{:?}", kind), "steps": desc}));
+    st.class("history");
+    st.nontrivial(t.digest());
+    Ok(())
+}
+
 const GRID_Q: u64 = 11_000 - 6 + 1;
 
 fn grid_n(tier: Tier, i: u64) -> u32 {
@@ -224,7 +278,9 @@ chunk-1,chunk,chunk+1,2chunk,2chunk+1,30000} is offered to fresh senders: consum
 consumed(min(L, m)) with m = calculate_max_input(n), consumed non-decreasing along the ladder, output strictly \
 decodes to the consumed prefix. enumeration 'small' (thorough): all L <= 300 for all n <= 300. random 'loops': \
 whole-body send loops with a fixed buffer must terminate within |body| writes and decode to the body. \
-non-trivial = chunked pair with L > n-5 and n >= 21, or n-5-L in {0,1}; distinct by (n, L, api); loops with >= 2 writes.",
+random 'histories': 2..10 writes on one body with buffers that grow and shrink (6..12, hex-digit boundaries, up to 12000), inputs \
+around the buffer size and around 16 / 256 / 4096 / 8192 / 10240, calculate_max_input() asked about the same or another size in \
+between: each write consumes >= 1 and exactly what the same write consumes on a fresh body. non-trivial = chunked pair with L > n-5 and n >= 21, or n-5-L in {0,1}; distinct by (n, L, api); loops with >= 2 writes.",
     assumptions: &[
         "a fresh sender per (L, n) pair, so pairs are independent",
         "the smallest chunk needs 6 bytes (1 size digit + CRLF + 1 data byte + CRLF), as the property states",
@@ -246,11 +302,19 @@ non-trivial = chunked pair with L > n-5 and n >= 21, or n-5-L in {0,1}; distinct
             exec: Some(exec_small),
         },
     ],
-    randoms: &[RandomDef {
-        name: "loops",
-        cases: |t: Tier| t.pick(30_000, 6_000_000),
-        tape_len: 12,
-        exec: Some(exec_loop),
-    }],
+    randoms: &[
+        RandomDef {
+            name: "loops",
+            cases: |t: Tier| t.pick(30_000, 6_000_000),
+            tape_len: 12,
+            exec: Some(exec_loop),
+        },
+        RandomDef {
+            name: "histories",
+            cases: |t: Tier| t.pick(60_000, 6_000_000),
+            tape_len: 70,
+            exec: Some(exec_history),
+        },
+    ],
     extra: None,
 };
